@@ -95,6 +95,25 @@ mut("c09-smooth-no-current-point", "C09", "smooth quadratic no longer requires a
             end_pos = points[index]''',
 '''            control1 = self.smooth_point
             end_pos = points[index]''')
+mut("c09-close-walks-to-move", "C09", "every close walks back to the last move over the earlier closes of the same move: parsing is quadratic in them (the pinned tree's defect)",
+'''        for segment in reversed(self._segments):
+            if isinstance(segment, Move) or (
+                isinstance(segment, Close) and segment.end is not None
+            ):
+                # An earlier close of the same move ended where the next one must: no need to walk on.
+                end_pos = segment.end
+                break''',
+'''        for segment in reversed(self._segments):
+            if isinstance(segment, Move):
+                end_pos = segment.end
+                break''', runs=60000, more=[('''            if isinstance(segment, Move) or (
+                isinstance(segment, Close) and segment.end is not None
+            ):
+                # An earlier close of the same move ended where this one must: no need to walk on.
+                self._segments[index].end = Point(segment.end)
+                return''', '''            if isinstance(segment, Move):
+                self._segments[index].end = Point(segment.end)
+                return''')])
 
 # ---------------- C16
 mut("c16-arc-sweep-not-negated", "C16", "Arc.reverse swaps the end points but keeps the sweep",
@@ -389,10 +408,15 @@ mut("c10-double-pop", "C10", "a skipped element pops the inheritance stack at on
                     continue
                 # If no root was established, s is root.''')
 mut("c10-dangling-use-raises", "C10", "a use whose target does not exist is no longer tolerated",
-'''                        except KeyError:
-                            pass  # Failed to find link.''',
-'''                        except IndexError:
-                            pass  # Failed to find link.''')
+'''                        target = event_defs.get(url[1:])  # None: failed to find link.''',
+'''                        target = event_defs[url[1:]]''')
+mut("c10-structure-pass-skips-end-of-reference", "C10", "after giving a use's reference the structure pass forgets the use's own end event",
+'''                frames.pop()
+                if elem is not None:
+                    yield tag, "end", elem''',
+'''                frames.pop()
+                if elem is not None and not (SVG_TAG_USE == tag and frame[1] != frame[4] and SVG_ATTR_ID not in elem.attrib):
+                    yield tag, "end", elem''')
 mut("c10-single-read", "C10", "the structure pass assumes that one read() returns the whole document",
 '''        for event, elem in iterparse(source, events=("start", "end", "start-ns")):''',
 '''        if hasattr(source, "read") and not hasattr(source, "getvalue"):
@@ -409,6 +433,19 @@ mut("c10-percent-base-leaks", "C10", "the percentage base set by an embedded svg
 mut("c10-cyclic-use-unbounded", "C10", "use expansion no longer stops at a reference that is being instantiated (the pinned tree's defect)",
 '''                    if url is not None and url[1:] not in active:''',
 '''                    if url is not None:''')
+mut("c10-unresolvable-root-skipped", "C10", "an outermost svg whose em/ex size cannot be resolved is skipped and the next element becomes the root (the pinned tree's defect)",
+'''                            except (ZeroDivisionError, ValueError):''',
+'''                            except ZeroDivisionError:''', runs=80000)
+mut("c10-ids-registered-with-any-root", "C10", "ids of uses are registered with whatever the root is (AttributeError when the outermost element is a group; the pinned tree's defect)",
+'''                        if SVG_ATTR_ID in attributes and isinstance(root, SVG) and use == 1:''',
+'''                        if SVG_ATTR_ID in attributes and root is not None and use == 1:''', runs=20000)
+mut("c10-image-attribute-taken-for-object", "C10", "an attribute named image is taken for an image object (the pinned tree's defect)",
+'''        if "image" in values and not isinstance(values["image"], str):''',
+'''        if "image" in values:''', runs=40000)
+mut("c10-clip-path-first-match-indexed", "C10", "get_element_by_url indexes the first IRI match (IndexError for clip-path='none')",
+'''        for _id in REGEX_IRI.findall(url):
+            return self.get_element_by_id(_id)''',
+'''        return self.get_element_by_id(REGEX_IRI.findall(url)[0])''')
 mut("c10-embedded-zero-svg-returns", "C10", "an embedded svg with a zero-size viewBox ends the parse and is returned as the document (the pinned tree's defect)",
 '''                                if root is None:
                                     return s  # No more parsing will be done.''',
@@ -456,6 +493,12 @@ mut("c20-rect-ry-from-rx", "C20", "the writer states a rect's ry from rx",
         restate_size(xml_tree, SVG_ATTR_WIDTH, node.width)''',
 '''        restate(xml_tree, SVG_ATTR_RADIUS_Y, node.rx)
         restate_size(xml_tree, SVG_ATTR_WIDTH, node.width)''')
+mut("c20-arc-conjugate-radii-kept", "C20", "an arc multiplied by a non-similarity keeps the mapped radii, conjugate diameters that d() then spells as axes (the pinned tree's defect; the check used to file it under the six-digit finding)",
+'''                self.sweep = -self.sweep
+            self._principal_axes()
+        return self''',
+'''                self.sweep = -self.sweep
+        return self''')
 mut("c20-stale-id-kept", "C20", "an id cleared on the object leaves the source's id in the written text (the pinned tree's defect)",
 '''            xml_tree.set(SVG_ATTR_ID, str(node.id))
         else:
